@@ -619,6 +619,9 @@ def _r5(ctx, m):
 
 T = FILE
 MUTANTS = [
+    {"name": "thermal-wrap-slice-walk-stores-one-column-off", "file": T,
+     "old": '            for si in range(n_spec):\n                jacrhs[n_spec * n_eqns + si] = (\n                    "0.0"\n                    if jacrhs[n_spec * n_eqns + si] == "0.0"\n                    else f"(gamma - 1.0) * ( {jacrhs[n_spec * n_eqns + si]} ) / kerg / npar"\n                )\n',
+     "new": '            tstart = n_spec * n_eqns\n            for si, entry in enumerate(jacrhs[tstart : tstart + n_spec]):\n                if entry != "0.0":\n                    jacrhs[tstart + si + 1] = f"(gamma - 1.0) * ( {entry} ) / kerg / npar"\n', "rules": ["R3"]},
     {'name': 'dense-filled-from-csr-with-row-cursor-advanced-by-if', 'file': DENSE, 'old': '    {% for r in ode.jac.rhs -%}\n    {% set neqns = ode.jac.nrow -%}\n    {% if r != "0.0" -%}\n    IJth(jmatrix, {{ (loop.index0/neqns) | int }}, {{ loop.index0%neqns }}) = {{ r | stmwrap(80, 24)}};\n    {% endif -%}\n    {% endfor %}\n', 'new': '    {% set cur = namespace(row=0) -%}\n    {% for col, val in zip(ode.jac.cols, ode.jac.vals) -%}\n    {% if loop.index0 >= ode.jac.rows[cur.row + 1] -%}\n    {% set cur.row = cur.row + 1 -%}\n    {% endif -%}\n    IJth(jmatrix, {{ cur.row }}, {{ col }}) = {{ val | stmwrap(80, 24)}};\n    {% endfor %}\n', 'rules': ['R4']},
     {'name': 'odeint-rows-by-batch-transposed', 'file': ODEINT, 'old': '    {% for r in ode.jac.rhs -%}\n    {% set neqns = ode.jac.nrow -%}\n    {% if r != "0.0" -%}\n    j({{ (loop.index0/neqns) | int }}, {{ loop.index0%neqns }}) = {{ r | stmwrap(80, 24)}};\n    {% endif -%}\n    {% endfor %}\n', 'new': '    {% for rowterms in ode.jac.rhs | batch(ode.jac.nrow) -%}\n    {% set irow = loop.index0 -%}\n    {% for r in rowterms -%}\n    {% if r != "0.0" -%}\n    j({{ loop.index0 }}, {{ irow }}) = {{ r | stmwrap(80, 24)}};\n    {% endif -%}\n    {% endfor -%}\n    {% endfor %}\n', 'rules': ['R4']},
     {'name': 'dense-decode-from-loop-index', 'file': DENSE, 'old': 'IJth(jmatrix, {{ (loop.index0/neqns) | int }}, {{ loop.index0%neqns }})', 'new': 'IJth(jmatrix, {{ (loop.index/neqns) | int }}, {{ loop.index%neqns }})', 'rules': ['R4']},
@@ -656,6 +659,9 @@ MUTANTS = [
     {"name": "skip-catalyst-jac", "file": T, "old": "            for specidx in pspecidx:\n                for ri in rspecidx:\n                    rsymcopy = rsym.copy()", "new": "            for specidx in pspecidx:\n                if specidx in rspecidx:\n                    continue\n                for ri in rspecidx:\n                    rsymcopy = rsym.copy()", "rules": ["R1"]},
 ]
 BENIGN = [
+    {"name": "thermal-wrap-walks-the-row-slice-with-enumerate", "file": T,
+     "old": '            for si in range(n_spec):\n                jacrhs[n_spec * n_eqns + si] = (\n                    "0.0"\n                    if jacrhs[n_spec * n_eqns + si] == "0.0"\n                    else f"(gamma - 1.0) * ( {jacrhs[n_spec * n_eqns + si]} ) / kerg / npar"\n                )\n',
+     "new": '            tstart = n_spec * n_eqns\n            for si, entry in enumerate(jacrhs[tstart : tstart + n_spec]):\n                if entry != "0.0":\n                    jacrhs[tstart + si] = f"(gamma - 1.0) * ( {entry} ) / kerg / npar"\n'},
     {"name": "dense-decode-in-one-tuple-set", "file": DENSE, "old": "IJth(jmatrix, {{ (loop.index0/neqns) | int }}, {{ loop.index0%neqns }})",
      "new": "{% set irow, icol = loop.index0 // neqns, loop.index0 % neqns -%}IJth(jmatrix, {{ irow }}, {{ icol }})"},
     {"name": "sentinel-as-named-class-and-module-constant", "edits": [
